@@ -147,6 +147,54 @@ fn main() {
                 fail(format!("skew(45,0,(0,1)).apply((3,3)) = {:?}, want (5,3)", r));
             }
         }
+        "trait_forms" => {
+            // The solver's counterexample is about an opaque geometry; replay = the same statement
+            // on a concrete asymmetric geometry whose centroid, bounding-box centre and first
+            // vertex all differ.
+            use geo::{AffineOps, BoundingRect, Centroid, Rotate, Scale, Skew, Translate};
+            use geo_types::{LineString, Point};
+            let g: LineString<f64> = vec![(0.0, 0.0), (8.0, 0.0), (8.0, 2.0), (1.0, 6.0)].into();
+            let c = g.bounding_rect().unwrap().center();
+            let cen: Point<f64> = g.centroid().unwrap();
+            let o = coord! {x: 3.0, y: -1.0};
+            let close = |a: &LineString<f64>, b: &LineString<f64>| a.0.len() == b.0.len() && a.0.iter().zip(b.0.iter()).all(|(p, q)| (p.x - q.x).abs() < 1e-9 && (p.y - q.y).abs() < 1e-9);
+            let mut checks: Vec<(&str, LineString<f64>, LineString<f64>)> = vec![
+                ("translate", g.translate(2.0, -3.0), g.affine_transform(&AffineTransform::translate(2.0, -3.0))),
+                ("scale", g.scale(3.0), g.affine_transform(&AffineTransform::scale(3.0, 3.0, c))),
+                ("scale_xy", g.scale_xy(2.0, 5.0), g.affine_transform(&AffineTransform::scale(2.0, 5.0, c))),
+                ("scale_around_point", g.scale_around_point(2.0, 5.0, o), g.affine_transform(&AffineTransform::scale(2.0, 5.0, o))),
+                ("rotate_around_center", g.rotate_around_center(30.0), g.affine_transform(&AffineTransform::rotate(30.0, c))),
+                ("rotate_around_centroid", g.rotate_around_centroid(30.0), g.affine_transform(&AffineTransform::rotate(30.0, cen.0))),
+                ("rotate_around_point", g.rotate_around_point(30.0, Point(o)), g.affine_transform(&AffineTransform::rotate(30.0, o))),
+                ("skew", g.skew(20.0), g.affine_transform(&AffineTransform::skew(20.0, 20.0, c))),
+                ("skew_xy", g.skew_xy(20.0, 35.0), g.affine_transform(&AffineTransform::skew(20.0, 35.0, c))),
+                ("skew_around_point", g.skew_around_point(20.0, 35.0, o), g.affine_transform(&AffineTransform::skew(20.0, 35.0, o))),
+            ];
+            macro_rules! inplace {
+                ($name:literal, $call:expr, $want:expr) => {{
+                    let mut h = g.clone();
+                    let f: &dyn Fn(&mut LineString<f64>) = &$call;
+                    f(&mut h);
+                    checks.push(($name, h, g.affine_transform(&$want)));
+                }};
+            }
+            inplace!("translate_mut", |h| h.translate_mut(2.0, -3.0), AffineTransform::translate(2.0, -3.0));
+            inplace!("scale_mut", |h| h.scale_mut(3.0), AffineTransform::scale(3.0, 3.0, c));
+            inplace!("scale_xy_mut", |h| h.scale_xy_mut(2.0, 5.0), AffineTransform::scale(2.0, 5.0, c));
+            inplace!("scale_around_point_mut", |h| h.scale_around_point_mut(2.0, 5.0, o), AffineTransform::scale(2.0, 5.0, o));
+            inplace!("rotate_around_center_mut", |h| h.rotate_around_center_mut(30.0), AffineTransform::rotate(30.0, c));
+            inplace!("rotate_around_centroid_mut", |h| h.rotate_around_centroid_mut(30.0), AffineTransform::rotate(30.0, cen.0));
+            inplace!("rotate_around_point_mut", |h| h.rotate_around_point_mut(30.0, Point(o)), AffineTransform::rotate(30.0, o));
+            inplace!("skew_mut", |h| h.skew_mut(20.0), AffineTransform::skew(20.0, 20.0, c));
+            inplace!("skew_xy_mut", |h| h.skew_xy_mut(20.0, 35.0), AffineTransform::skew(20.0, 35.0, c));
+            inplace!("skew_around_point_mut", |h| h.skew_around_point_mut(20.0, 35.0, o), AffineTransform::skew(20.0, 35.0, o));
+            for (name, got, want) in &checks {
+                if !close(got, want) {
+                    fail(format!("{name}: trait form differs from the documented matrix about the documented origin: {:?} vs {:?}", got, want));
+                }
+            }
+            println!("ok trait forms");
+        }
         _ => {
             eprintln!("unknown op {op}");
             std::process::exit(4);
